@@ -58,6 +58,7 @@ type Run struct {
 	Explanation               string
 
 	byteTheory     bool // load the byte-level meaning of the wire tokens (iohelp proofs)
+	nbasis         int
 	scratch        string
 	known          []KnownFinding
 	onMissingInput func(o *vc.Obligation) bool // may extend the harness findings; true = look again
